@@ -1,7 +1,9 @@
 package checks
 
 import (
+	"errors"
 	"fmt"
+	"io"
 	"sort"
 	"strings"
 
@@ -47,6 +49,11 @@ func clientOutcome(l *svc.CLog, withText bool) string {
 	s := fmt.Sprintf("msgs=%s err=%v code=%v hdr=%s trl=%s", msgsString(l.Msgs), l.Err != nil, code, hdrString(l.Header), hdrString(l.Trailer))
 	if withText {
 		s += " text=" + errStr(l.Err)
+	}
+	for _, e := range l.PostEnd {
+		// (bidi) what further Receive calls past the end report
+		c, _ := codeOf(e)
+		s += fmt.Sprintf(" post=%v/%v/eof=%v", e != nil, c, errors.Is(e, io.EOF))
 	}
 	return s
 }
